@@ -3,7 +3,7 @@ use std::{
     mem,
 };
 
-use super::num::read_u32_le;
+use super::{num::read_u32_le, read_exact_to_vec};
 use crate::Record;
 
 pub fn read_record<R>(reader: &mut R, record: &mut Record) -> io::Result<usize>
@@ -18,14 +18,12 @@ where
     let l_indiv = read_samples_length(reader)?;
 
     let site_buf = record.fields_mut().site_buf_mut();
-    site_buf.resize(l_shared, 0);
-    reader.read_exact(site_buf)?;
+    read_exact_to_vec(reader, site_buf, l_shared)?;
 
     record.fields_mut().index()?;
 
     let samples_buf = record.fields_mut().samples_buf_mut();
-    samples_buf.resize(l_indiv, 0);
-    reader.read_exact(samples_buf)?;
+    read_exact_to_vec(reader, samples_buf, l_indiv)?;
 
     Ok(l_shared + l_indiv)
 }
